@@ -16,7 +16,11 @@ RULE = ("pairs and triples of random trees (1-10 leaves quick, 25 thorough) over
         "state per case (rooted / unrooted / unset), dyadic / None / zero edge lengths, unary nodes and polytomies; re-drawn copies "
         "(children shuffled, unifurcations inserted with the length split, unrooted trees re-seeded through an independent graph "
         "re-rooting); histories of structural edits (taxon swaps, length changes, leaf regrafts, on either tree) interleaved with "
-        "calls of all five public functions with default arguments and with is_bipartitions_updated=True; trees over a second, "
+        "calls of all five public functions with default arguments and with is_bipartitions_updated=True; between calls on the same "
+        "(already encoded) tree objects also CHANGES OF THE ROOTING STATE of both trees, to rooted / unrooted / unset, through every way "
+        "the API offers (is_rooted and is_unrooted setters, deroot(), reroot_at_node / reroot_at_edge / reroot_at_midpoint, "
+        "to_outgroup_position followed by a setter; distribution in the evidence) and explicit encode_bipartitions() with non-default "
+        "flags, every default call judged from scratch for the CURRENT flag and structure; trees over a second, "
         "equal-looking namespace object; namespace histories (members - mostly not the newest - removed with remove_taxon / "
         "remove_taxon_label / del, then new ones added with new_taxon / require_taxon / add_taxon / by reading Newick) before two "
         "trees are built over the result, judged on leaf-label sets; every pair also through the aliases, the deprecated Tree methods, "
@@ -70,7 +74,7 @@ EXPLANATION = ("Theorems about the definitions the driver runs. Definitions: fp/
                "rf_zero_iff_unrooted_topology. Tie A (gen_rf, gen_fpfn, gen_missing, gen_wrf, gen_euclid, gen_entry, gen_pass2, "
                "gen_prepare, gen_namespace, gen_aliases): the kernels regenerated from treecompare.py / _tree.py on every run are the "
                "model's; a semantic edit of the source breaks one of them, a harmless rewrite (a - b for a.difference(b), x*x for pow(x,2), "
-               "nested ifs for `and`, a symmetric alias with its trees swapped) does not. Histories (Model/C04State.lean; the driver's "
+               "nested ifs for `and`, a symmetric alias with its trees swapped) does not. Histories (Model/C04State.lean, with rooting-change events rootA / rootB: flag and drawing change, the encoding stored under the old flag stays; the driver's "
                "`hist` and `sdist` ops execute run / step / "
                "weightedCall / fpfnCall / missingCall on every generated history and the harness compares every answer): "
                "history_default_call_is_fresh, default_call_ignores_stored_encoding, updated_call_uses_stored_encoding, namespace_refusal "
@@ -717,7 +721,11 @@ def snapshot(t):
 
 
 def sdist_line(updated, ns1, ns2, cur, old):
-    """cur / old: [(tokens, rooting)] * 2 ; old[i] None = tree i never encoded"""
+    """cur / old: [(tokens, rooting)] * 2 ; old[i] None = tree i never encoded.  None when the call would read an encoding stored
+    under ANOTHER rooting flag than the tree has now (the protocol line has one flag per tree; the `hist` line of the same history
+    carries that call)"""
+    if updated and any(o is not None and o[1] != c[1] for o, c in zip(old, cur)):
+        return None
     parts = ["sdist", "1" if updated else "0", str(ns1), str(ns2), cur[0][1], cur[1][1],
              "0" if old[0] is None else "1", "0" if old[1] is None else "1"]
     parts += cur[0][0] + cur[1][0]
@@ -795,13 +803,70 @@ def apply_edit(dendropy, trees, step):
         p.remove_child(lf)
         tgt.add_child(lf)
         return True
+    if kind == "encode_flags":
+        # an explicit encoding with non-default flags between two distance calls (the next default call must not trust it)
+        t.encode_bipartitions(suppress_unifurcations=bool(step["suppress"]), collapse_unrooted_basal_bifurcation=bool(step["collapse"]))
+        return True
     raise RuntimeError("harness: unknown edit %r" % kind)
 
 
+ROOTING_WAYS = {"R": ["setter", "unrooted_setter", "reroot_at_node", "reroot_at_edge", "reroot_at_midpoint", "to_outgroup_position"],
+                "U": ["setter", "unrooted_setter", "deroot", "to_outgroup_position", "reroot_at_node"],
+                "N": ["setter", "to_outgroup_position", "reroot_at_edge"]}
+
+
+def set_rooting(t, target, how, pick):
+    """change the rooting state of the LIVE tree object `t` to `target` (True / False / None) the way `how` names: the plain
+    setters, `deroot()`, the hard re-rootings (which set is_rooted = True themselves), or a soft re-drawing followed by the setter.
+    Whatever the call leaves in `is_rooted`, the setter finally brings it to `target` (a no-op when the call already did)."""
+    nodes = tu.walk(t.seed_node)
+    nonseed = [nd for nd in nodes if nd is not t.seed_node]
+    internal = [nd for nd in nonseed if nd._child_nodes]
+    if how == "unrooted_setter" and target is not None:
+        t.is_unrooted = not target
+    elif how == "deroot" and target is False:
+        t.deroot()
+    elif how == "reroot_at_node" and internal:
+        t.reroot_at_node(internal[pick % len(internal)])
+    elif how == "reroot_at_edge" and nonseed:
+        nd = nonseed[pick % len(nonseed)]
+        l = nd.edge.length
+        t.reroot_at_edge(nd.edge, length1=None if l is None else l / 2.0, length2=None if l is None else l / 2.0)
+    elif how == "reroot_at_midpoint" and len(nonseed) >= 2 and all(nd.edge.length is not None and nd.edge.length > 0 for nd in nonseed):
+        t.reroot_at_midpoint()
+    elif how == "to_outgroup_position" and nonseed:
+        t.to_outgroup_position(nonseed[pick % len(nonseed)])
+    if t.is_rooted is not target:
+        t.is_rooted = target
+
+
+class EditAborted(Exception):
+    """a re-rooting call of the library failed while preparing a history (not a distance call: not C04's to judge); the history
+    stops there"""
+
+
+def apply_rooting(trees, step):
+    """BOTH trees go to the same new rooting state (the statement is about pairs in one state), each its own way"""
+    target = UNROOT[step["to"]]
+    for k, t in enumerate(trees[:2]):
+        try:
+            set_rooting(t, target, step["how"][k], step["pick"][k])
+        except Exception as e:
+            if not common.is_library_exception(e):
+                raise
+            raise EditAborted("%s: %s: %s" % (step["how"][k], type(e).__name__, str(e)[:80]))
+    return True
+
+
 def gen_step(rng):
-    kind = rng.choice(["swap_taxa", "swap_taxa", "set_length", "regraft", "regraft"])
+    kind = rng.choice(["swap_taxa", "swap_taxa", "set_length", "regraft", "regraft", "rooting", "rooting", "rooting", "encode_flags"])
     step = {"tree": rng.randrange(2), "edit": kind}
-    if kind == "swap_taxa":
+    if kind == "rooting":
+        to = rng.choice(["R", "U", "U", "N"])
+        step.update(to=to, how=[rng.choice(ROOTING_WAYS[to]) for _ in range(2)], pick=[rng.randrange(64) for _ in range(2)])
+    elif kind == "encode_flags":
+        step.update(suppress=rng.random() < 0.5, collapse=rng.random() < 0.5)
+    elif kind == "swap_taxa":
         step.update(a=rng.randrange(64), b=rng.randrange(64))
     elif kind == "set_length":
         step.update(node=rng.randrange(64), length=tu.frac(tu.dyadic(rng, zero_rate=0.0)))
@@ -809,6 +874,8 @@ def gen_step(rng):
         step.update(leaf=rng.randrange(64), target=rng.randrange(64))
     calls = rng.sample(list(FUNCS), rng.randint(1, len(FUNCS)))
     step["updated_first"] = [f for f in FUNCS if rng.random() < 0.15]     # un-judged calls that trust the old encodings
+    if kind == "encode_flags":
+        step["updated_first"] = []      # the encoding just stored was made with non-default flags: the model has no such encoding
     step["calls"] = calls
     return step
 
@@ -885,17 +952,43 @@ def judge_history(ctx, dendropy, case, pending, rng=None, nsteps=0):
             break
         step = steps[i]
         i += 1
-        if not apply_edit(dendropy, trees, step):
-            continue
+        if step["edit"] == "rooting":
+            try:
+                apply_rooting(trees, step)
+            except EditAborted as e:
+                ctx.count("history_stopped_at_failed_rerooting")
+                ctx.note("history: re-rooting failed (%s); history stopped there" % e)
+                del steps[i - 1:]
+                i -= 1
+                break
+            ctx.count("rooting_change_between_calls:" + step["to"] + ":" + "+".join(sorted(set(step["how"]))))
+            for k in (0, 1):
+                now = snapshot(trees[k])
+                hist["evs"].append("R" + "AB"[k] + " " + now[1] + " " + " ".join(now[0]))
+        else:
+            if not apply_edit(dendropy, trees, step):
+                continue
+            k_ed = step["tree"] % 2
+            hist["evs"].append("AB"[k_ed] + " " + " ".join(snapshot(trees[k_ed])[0]))
         case["basal_bifurcation_survives"] = basal_survives(t1) or basal_survives(t2)     # of the drawings this step's calls start from
-        k_ed = step["tree"] % 2
-        hist["evs"].append("AB"[k_ed] + " " + " ".join(snapshot(trees[k_ed])[0]))
         d1, d2 = split_lengths(t1), split_lengths(t2)
         for name in step.get("updated_first", ()):
             # may legitimately be stale: not judged by the oracle, but the unweighted ones are predicted by the model's stored encodings
             cur = [snapshot(t1), snapshot(t2)]
-            st, v = call(getattr(treecompare, name), t1, t2, is_bipartitions_updated=True)
-            if name in UNWEIGHTED:
+            try:
+                st, v = call(getattr(treecompare, name), t1, t2, is_bipartitions_updated=True)
+            except LibraryCrash:
+                # the caller's claim "the bipartitions are up to date" is false after an edit; an edge created by the edit (e.g. by
+                # reroot_at_edge) carries no compiled bipartition at all, and the library may then fail in any way: outside the statement
+                ctx.count("updated_call_on_stale_tree_crashed")
+                for k in (0, 1):
+                    if old[k] is None:
+                        old[k] = cur[k]
+                hist["evs"].append("F1")
+                hist["res"].append(None)
+                hist_redrawn(hist, cur, (t1, t2))
+                continue
+            if name in UNWEIGHTED and sdist_line(True, 0, 0, cur, old) is not None:
                 pending.append((sdist_line(True, 0, 0, cur, old), dict(case, steps=steps[:i], fn=name + "(is_bipartitions_updated=True)"),
                                 {"sdist": (name, canon_unweighted(name, st, v))}))
             for k in (0, 1):
@@ -904,7 +997,8 @@ def judge_history(ctx, dendropy, case, pending, rng=None, nsteps=0):
             hist_event(hist, name, True, st, v)
             hist_redrawn(hist, cur, (t1, t2))
         for name in step["calls"]:
-            history_call(ctx, dendropy, name, t1, t2, d1, d2, dict(case, steps=steps[:i]), "after edit %d (%s of tree %d)" % (i, step["edit"], step["tree"] + 1), True, old, pending, hist)
+            history_call(ctx, dendropy, name, t1, t2, d1, d2, dict(case, steps=steps[:i]), "after edit %d (%s)" % (i, ("rooting state of both trees set to %s via %s" % (step["to"], " / ".join(step["how"]))) if step["edit"] == "rooting"
+                                                        else "%s of tree %d" % (step["edit"], step["tree"] + 1)), True, old, pending, hist)
     ctx.case(["history", case["tree"], case["tree2"], steps], True, sample=dict(case, steps=steps[:3]), kind="history")
     if hist["evs"]:
         line = "hist 0 0 %s %s %s %s %d %s" % (start[0][1], start[1][1], " ".join(start[0][0]), " ".join(start[1][0]),
